@@ -360,6 +360,104 @@ pub fn batch_case(run: &Run, src: &mut Src) -> CaseOut {
 	ret.unwrap()
 }
 
+/// std.equals / primitiveEquals / assertEqual / == on strings depend on the contents only, not on how a string was put
+/// together.  Two contents A and B (B equal to A, or differing in one character, or a proper prefix) are each built from
+/// a drawn split by a drawn grouping of `+` (left-nested, right-nested, balanced), by std.join, by `%` or as a literal;
+/// total lengths 0..3000 characters, so short, medium (>= 100 bytes) and long (> 1024 bytes) strings all occur.
+fn string_construction_case(src: &mut Src) -> CaseOut {
+	const ALPHA: &[&str] = &["a", "b", "z", "0", " ", "é", "😀", "%", "'", "\\"];
+	let unit: String = (0..1 + src.below(6)).map(|_| *src.pick(ALPHA)).collect();
+	let n_units = match src.below(4) {
+		0 => src.below(8),
+		1 => 10 + src.below(60),
+		_ => 60 + src.below(400),
+	};
+	let a: Vec<char> = unit.chars().cycle().take(n_units * unit.chars().count().max(1)).collect();
+	let relation = src.below(4);
+	let b: Vec<char> = match relation {
+		0 | 1 => a.clone(),
+		2 if !a.is_empty() => {
+			let mut b = a.clone();
+			let at = match src.below(3) {
+				0 => 0,
+				1 => b.len() - 1,
+				_ => src.below(b.len()),
+			};
+			b[at] = if b[at] == 'Q' { 'R' } else { 'Q' };
+			b
+		}
+		_ => a[..a.len() - a.len().min(1)].to_vec(),
+	};
+	fn lit(c: &[char]) -> String {
+		let mut o = String::from("'");
+		for ch in c {
+			match ch {
+				'\'' => o.push_str("\\'"),
+				'\\' => o.push_str("\\\\"),
+				c => o.push(*c),
+			}
+		}
+		o.push('\'');
+		o
+	}
+	// a construction of the content `c`
+	fn build(src: &mut Src, c: &[char]) -> (String, &'static str) {
+		let k = 1 + src.below(5);
+		let mut cuts: Vec<usize> = (0..k - 1).map(|_| src.below(c.len() + 1)).collect();
+		cuts.push(0);
+		cuts.push(c.len());
+		cuts.sort();
+		let pieces: Vec<String> = cuts.windows(2).map(|w| lit(&c[w[0]..w[1]])).collect();
+		match src.below(6) {
+			0 => (lit(c), "literal"),
+			1 => (pieces.iter().skip(1).fold(pieces[0].clone(), |acc, p| format!("({acc} + {p})")), "left-nested"),
+			2 => (pieces.iter().rev().skip(1).fold(pieces[pieces.len() - 1].clone(), |acc, p| format!("({p} + {acc})")), "right-nested"),
+			3 => {
+				fn bal(p: &[String]) -> String {
+					if p.len() == 1 {
+						p[0].clone()
+					} else {
+						format!("({} + {})", bal(&p[..p.len() / 2]), bal(&p[p.len() / 2..]))
+					}
+				}
+				(bal(&pieces), "balanced")
+			}
+			4 => (format!("std.join('', [{}])", pieces.join(", ")), "join"),
+			_ => (format!("('{}' % [{}])", "%s".repeat(pieces.len()), pieces.join(", ")), "format"),
+		}
+	}
+	let (ea, ka) = build(src, &a);
+	let (eb, kb) = build(src, &b);
+	let eq = a == b;
+	let code = format!(
+		"local A = {ea}, B = {eb}; [std.equals(A, B), std.primitiveEquals(A, B), A == B, !(A != B), std.equals([A], [B]), std.equals({{ k: A }}, {{ k: B }}), std.member([A], B), std.objectHas({{ [A]: 1 }}, B), std.length(std.set([A, B])) == 1, std.length(A) == {}, std.length(B) == {}]",
+		a.len(),
+		b.len()
+	);
+	let want = format!("[{e},{e},{e},{e},{e},{e},{e},{e},{e},true,true]", e = eq);
+	let bytes = a.iter().collect::<String>().len();
+	let size = if bytes > 1024 { "string:longer-than-1024-bytes" } else if bytes >= 100 { "string:100-to-1024-bytes" } else { "string:short" };
+	let classes = vec![format!("construction:{ka}"), format!("construction:{kb}"), size.to_owned(), format!("string-equal:{eq}")];
+	let mut problems = vec![];
+	match jr::eval(&code, &Opts::default()) {
+		Outcome::Val(v) if v == want => {}
+		other => problems.push(format!("expected {want}, got {}", other.short())),
+	}
+	// assertEqual succeeds exactly on equal strings
+	let code2 = format!("local A = {ea}, B = {eb}; std.assertEqual(A, B)");
+	match (eq, jr::eval(&code2, &Opts::default())) {
+		(true, Outcome::Val(v)) if v == "true" => {}
+		(false, Outcome::Err(..)) => {}
+		(_, other) => problems.push(format!("std.assertEqual on {} strings: {}", if eq { "equal" } else { "different" }, other.short())),
+	}
+	let text = if code.len() > 1500 { format!("{}… ({} bytes; constructions {ka} / {kb}, contents {} and {} characters, equal: {eq})", &code[..code.char_indices().nth(700).map(|x| x.0).unwrap_or(code.len())], code.len(), a.len(), b.len()) } else { code.clone() };
+	if problems.is_empty() {
+		CaseOut::pass(text, ka != kb && bytes >= 100).classes(classes)
+	} else {
+		CaseOut::fail(format!("{text}\n// full program:\n{code}"), problems.join("\n")).classes(classes)
+	}
+}
+
 pub fn run(run: &Run) {
 	run.set_rule("calls of std.objectFields/All, objectValues/All, objectKeysValues/All, objectHas/All/Ex, objectFieldsEx, get (default present/absent/failing, inc_hidden positional and named), mapWithKey (total and partial functions), mergePatch (trees with nulls at every level, non-object targets/patches, hidden fields, inherited targets), prune, objectRemoveKey, length, type, is*, equals, primitiveEquals, assertEqual, xor, xnor on inheritance chains from the C02 generator (hidden, unhidden, +:, removed keys, failing fields, failing assertions), lazily built JSON-like objects and other values incl. functions. Reference: the documented std.jsonnet definitions written in Jsonnet over primitives and evaluated by the harness's own interpreter; array/object results are also observed through std.length only (elements must stay unevaluated). Non-trivial = inherited/hidden/failing-field object argument, a mergePatch, or a std.get with a failing default; distinct by call text.");
 	run.assume("documented definitions transcribed in REF_LIB (props/c13.rs); std.objectRemoveKey follows the property's wording (mask over the layers beneath), evaluated by harness/src/model.rs");
@@ -379,6 +477,11 @@ pub fn run(run: &Run) {
 	] {
 		run.require_class(&format!("fn:{f}"), 100);
 	}
+	let n = run.tier.pick(4_000, 40_000);
+	run.explore("string-constructions", n, 10..=60, string_construction_case);
+	run.require_class("string:longer-than-1024-bytes", 200);
+	run.require_class("string:100-to-1024-bytes", 200);
+	run.require_class("string-equal:false", 200);
 	run.require_class("arg:object-with-failing-field", 300);
 	run.require_class("observe:length-only", 300);
 }
@@ -390,6 +493,7 @@ pub fn replay(run: &Run, stage: &str, tape: Option<&[u16]>, _v: &Value) -> Optio
 			let qs: Vec<Question> = (0..6).map(|_| gen_question(&mut src)).collect();
 			decide(run, &qs).into_iter().find(|o| matches!(o.verdict, Verdict::Fail(_))).or_else(|| Some(CaseOut::pass("batch passes".into(), true)))
 		}
+		("string-constructions", Some(t)) => Some(string_construction_case(&mut Src::new(t))),
 		_ => None,
 	}
 }
